@@ -42,6 +42,7 @@ CONSTANTS NRows, NCols,          \* rows 1..NRows, abstract columns 1..NCols
           MaxRect,               \* most rows of an import rectangle
           BIds,                  \* "all": every non-empty id set; "whole": only the set of all rows
           Thrs,                  \* thresholds of TopIdsThr
+          TopNs,                 \* values of n for RecalcTopN / RecalcTopNFilter (0 = no limit)
           RecalcWeight,          \* multiplicity of Recalc among the successors (simulation)
           Rand,                  \* TRUE: one random instance per action class and step (simulation only)
           Depth
@@ -166,8 +167,8 @@ Steps ==
   \/ \E ids \in Pick(IdSets) : TopIds(ids)
   \/ \E ids \in Pick(IdSets), fr \in Pick(Rows) : TopIdsFilter(ids, fr)
   \/ \E ids \in Pick(IdSets), t \in Pick(Thrs) : TopIdsThr(ids, t)
-  \/ \E n \in Pick(0..NRows) : RecalcTopN(n)
-  \/ \E n \in Pick(0..NRows), fr \in Pick(Rows) : RecalcTopNFilter(n, fr)
+  \/ \E n \in Pick(TopNs) : RecalcTopN(n)
+  \/ \E n \in Pick(TopNs), fr \in Pick(Rows) : RecalcTopNFilter(n, fr)
 
 Next ==
   \/ Len(hist) < Depth + 1 /\ Steps
